@@ -1092,6 +1092,9 @@ func (x *v6Exec) run(op v6Op) string {
 			return "unmodelled"
 		}
 		return line
+	case "framing":
+		in, _ := base64.StdEncoding.DecodeString(op.Call.In)
+		return v6FramingLine(in)
 	case "new":
 		if x.node != nil {
 			x.node.close()
@@ -1295,6 +1298,126 @@ func v6Remove(ps []v6Pair, k string) []v6Pair {
 		}
 	}
 	return out
+}
+
+// ---- deepening round: the framing check on raw bytes (parser.go isJWSSerialization) and the base64 decoder it uses
+
+// digest of a byte string: length, first bytes, byte sum (small lines; the model prints the same)
+func v6Dig(b []byte) string {
+	sum := 0
+	for _, c := range b {
+		sum = (sum*31 + int(c)) % 1000003
+	}
+	n := len(b)
+	if n > 4 {
+		n = 4
+	}
+	return strconv.Itoa(len(b)) + ":" + hex.EncodeToString(b[:n]) + ":" + strconv.Itoa(sum)
+}
+
+// verdict of the REAL isJWSSerialization, plus what the REAL base64.RawURLEncoding decoder makes of the first segments
+func v6FramingLine(in []byte) string {
+	fr := isJWSSerialization(in)
+	segs := bytes.Split(in, []byte{'.'})
+	var ds []string
+	for i, sg := range segs {
+		if i >= 4 {
+			break
+		}
+		d, err := base64.RawURLEncoding.DecodeString(string(sg))
+		if err != nil {
+			ds = append(ds, "e")
+		} else {
+			ds = append(ds, v6Dig(d))
+		}
+	}
+	return "fr=" + strconv.FormatBool(fr) + " segs=" + strconv.Itoa(len(segs)) + " dec=" + strings.Join(ds, ",")
+}
+
+func (g *v6Gen) framingOp(note string, in []byte) {
+	g.emit(v6Op{Op: "framing", Call: &v6Call{In: base64.StdEncoding.EncodeToString(in), Note: note}})
+}
+
+const v6Alphabet = "ABCDEFGHIJKLMNOPQRSTUVWXYZabcdefghijklmnopqrstuvwxyz0123456789-_"
+
+// byte-level re-framings of one valid compact transaction, and small synthetic inputs around every branch of the check
+func (g *v6Gen) framingMutants(exhaustive bool) {
+	key := g.keys[g.rnd.Intn(len(g.keys))]
+	hdr := v6BaseHdr(key, "", "application/did+json", strconv.Itoa(g.rnd.Intn(1000)), []string{g.randRef()}, 1600000000+int64(g.rnd.Intn(1e8)), 1+g.rnd.Intn(2), nil)
+	valid := v6Compact(key, v6HdrJSON(hdr), g.randRef())
+	segs := strings.Split(string(valid), ".")
+	join := func(a, b, c string) []byte { return []byte(a + "." + b + "." + c) }
+	withSeg := func(k int, f func(string) string) []byte {
+		cp := append([]string{}, segs...)
+		cp[k] = f(cp[k])
+		return []byte(strings.Join(cp, "."))
+	}
+	g.framingOp("valid", valid)
+	g.framingOp("extra-segment", append(append([]byte{}, valid...), []byte(".x")...))
+	g.framingOp("extra-empty-segment", append(append([]byte{}, valid...), '.'))
+	g.framingOp("extra-segment-canonical", append(append([]byte{}, valid...), []byte(".QQ")...))
+	g.framingOp("two-segments", []byte(segs[0]+"."+segs[1]))
+	g.framingOp("one-segment", []byte(segs[0]))
+	g.framingOp("empty", []byte{})
+	g.framingOp("dots-only", []byte(".."))
+	g.framingOp("empty-payload", join(segs[0], "", segs[2]))
+	g.framingOp("empty-signature", join(segs[0], segs[1], ""))
+	g.framingOp("empty-header", join("", segs[1], segs[2]))
+	for k := 0; k < 3; k++ {
+		ks := strconv.Itoa(k)
+		g.framingOp("pad1:"+ks, withSeg(k, func(s string) string { return s + "=" }))
+		g.framingOp("pad2:"+ks, withSeg(k, func(s string) string { return s + "==" }))
+		g.framingOp("std-alphabet:"+ks, withSeg(k, func(s string) string { return strings.NewReplacer("-", "+", "_", "/").Replace(s) }))
+		for _, ins := range []string{"\n", "\r", "\r\n", " ", "\t", "\x00", "\x80", "\xff", "+", "/", "=", "~"} {
+			pos := g.rnd.Intn(len(segs[k]) + 1)
+			if g.rnd.Intn(3) == 0 {
+				pos = len(segs[k])
+			} else if g.rnd.Intn(4) == 0 {
+				pos = 0
+			}
+			g.framingOp("insert:"+ks+":"+strconv.Quote(ins), withSeg(k, func(s string) string { return s[:pos] + ins + s[pos:] }))
+		}
+		g.framingOp("drop-last-char:"+ks, withSeg(k, func(s string) string { return s[:len(s)-1] }))
+		g.framingOp("drop-two-chars:"+ks, withSeg(k, func(s string) string { return s[:len(s)-2] }))
+		g.framingOp("drop-three-chars:"+ks, withSeg(k, func(s string) string { return s[:len(s)-3] }))
+		// the same bytes with other trailing bits in the last character (only when the last quantum is partial)
+		for try := 0; try < 3; try++ {
+			raw := make([]byte, 1+g.rnd.Intn(8))
+			g.rnd.Read(raw)
+			enc := base64.RawURLEncoding.EncodeToString(raw)
+			last := strings.IndexByte(v6Alphabet, enc[len(enc)-1])
+			bump := 1 + g.rnd.Intn(3)
+			alt := enc[:len(enc)-1] + string(v6Alphabet[(last+bump)%64])
+			g.framingOp("segment-honest:"+ks, withSeg(k, func(string) string { return enc }))
+			g.framingOp("segment-last-char-bumped:"+ks+":len%4="+strconv.Itoa(len(enc)%4), withSeg(k, func(string) string { return alt }))
+		}
+	}
+	// the JSON branch: white space as unicode.IsSpace sees it (UTF-8 decoded), look-alikes that are not white space
+	js := `{"payload":"` + segs[1] + `","protected":"` + segs[0] + `","signature":"` + segs[2] + `"}`
+	for _, pre := range []string{"", " ", "\t\n\v\f\r ", "\u0085", "\u00a0", "\u1680", "\u2000", "\u2003", "\u200a", "\u2028", "\u2029", "\u202f", "\u205f", "\u3000",
+		" \u00a0 \u3000\n", "\u200b", "\u180e", "\ufeff", "\u2060", "\xc2", "\xe2\x80", "\xa0", "\x85", "\x00", "x", ".", "[", "\u00a0x", "\xe2\x80\x8b", "\xe2\x80\xa7", "\xe2\x81\x9e", "\xe3\x80\x81", "\xe1\x9a\x81", "\x1c", "\x1f", "\x08", "\x0e"} {
+		g.framingOp("json-prefix:"+strconv.Quote(pre), []byte(pre+js))
+		if g.rnd.Intn(4) == 0 {
+			g.framingOp("space-prefix-compact:"+strconv.Quote(pre), append([]byte(pre), valid...))
+		}
+	}
+	g.framingOp("only-space", []byte(" \n\t"))
+	g.framingOp("brace-only", []byte("{"))
+	g.framingOp("brace-then-compact", append([]byte("{"), valid...))
+	if exhaustive {
+		// every last character for segments with a partial last quantum (trailing bits), every single character, every lone byte
+		for i := 0; i < 64; i++ {
+			c := string(v6Alphabet[i])
+			g.framingOp("syn:last2", []byte("e30.Q"+c+".QQ"))
+			g.framingOp("syn:last3", []byte("e30.QQ.QU"+c))
+			g.framingOp("syn:last4", []byte("e30"+c+".QQ.QQ")) // length 4·k+... : e30X is a full quantum
+			g.framingOp("syn:single", []byte("e30."+c+".QQ"))
+		}
+		for b := 0; b < 256; b++ {
+			g.framingOp("syn:byte", []byte("e30.Q"+string([]byte{byte(b)})+"Q.QQ"))
+			g.framingOp("syn:first-byte", append([]byte{byte(b)}, []byte("{}")...))
+		}
+	}
 }
 
 // parser mutants of one valid transaction
